@@ -2,22 +2,28 @@
 
 PROP = {'gen_tables': ['Pools'],
  'race': True,
- 'rule': 'ops: histories (quick: 108 targeted + 700 random pinned + 60 concurrent; thorough: 108 + 12000 + 800). Each case = one observed call + a history of 1–12 operations. Observed call: (70 %) an encoder-family op '
+ 'rule': 'ops: histories (quick: 168 targeted + 700 random pinned + 60 concurrent; thorough: 168 + 12000 + 800). Each case = one observed call + a history of 1–12 operations. Observed call: (70 %) an encoder-family op '
          '(JSON or console; the generator of C01/C02/C10/C16: hostile keys, nested marshalers, dangling namespaces, reflected values, '
          'failing marshalers, error groups; a third through a core built BEFORE the history, a fifth with a sink that logs re-entrantly) '
          'or (30 %) a logger-level call (AddCaller, AddStacktrace, Development, panic/fatal hooks that return, failing sink, With fields; '
-         'actions log / DPanic / Panic / Fatal-with-hook / Check dropped / Check+Write / core.Check+Write / Sugar / deep recursion / With / '
+         'actions log / DPanic / Panic / Fatal-with-hook / Check dropped / Check+Write / Check+After(hook)+Write / core.Check+Write / Sugar / '
+         'deep recursion / With / '
          'zap.Stack fields; fixed clock). History operations: encoder ops with heavy fault injection (kept cores re-logged later), '
          'marshalers that panic with namespaces open and a reflection buffer in use (JSON and console), entries of 1.5 KB–300 KB, '
          'logger-level actions as above on other loggers, single and double runtime.GC(). seq mode (about 90 %): goroutine pinned with '
          'LockOSThread + GOMAXPROCS(1), two GCs (all pools empty) → observe B0, history, observe B1, observe B2; every 3rd case (4th '
          'thorough) and half of the targeted ones also run the observed call as the FIRST call of a fresh harness process. conc mode: 2–4 goroutines '
-         'replay the history on their own loggers while the observed call is made 10–80 times; built with -race. 108 targeted histories '
+         'replay the history on their own loggers while the observed call is made 10–80 times; built with -race. 168 targeted histories '
          'come first: 12 operations that each leave one kind of pooled object behind as the last object put (console / JSON entry whose '
          'field panics with namespaces open and a reflection buffer in use; reflected values; 70 KB entries; a written entry with a hook, '
          'an error output and a failing sink; dropped checked entries; a 300-frame stack capture; error arrays of both packages; a console '
-         'entry with every column) × 9 observed calls (logger-level JSON / console / core-level Check with failing sink / stack fields / With; '
-         'generated JSON and console encoder ops, plain and with a re-entrant sink). Oracle: bytes at the observed sink, bytes at the observed error output, write count, panic text and hook calls equal '
+         'entry with every column) × 14 observed calls (logger-level JSON / console / core-level Check with failing sink / stack fields / With / fatal, panic, '
+         'DPanic-in-development and After hooks that log before reading their entry / the built-in panic hook; '
+         'generated JSON and console encoder ops, plain and with a re-entrant sink). Hooks (zap.WithPanicHook / WithFatalHook / CheckedEntry.After) are recording crash-reporter hooks: before they look at the '
+         '*CheckedEntry they were handed they log through an unrelated logger and (mode 2) yield so that other goroutines log, then record '
+         'level, logger name, message, time, caller, stack and the fields; the record must start with what the inputs dictate '
+         '(level|logger|message|#fields) and the built-in panic hook must panic with the call\'s message (C08:history-dependent:hook-entry:…). '
+         'Oracle: bytes at the observed sink, what the observed hook read, bytes at the observed error output, write count, panic text and hook calls equal '
          'B0, and nothing reached a sink, error output or hook of the history. non-trivial = history length ≥ 1; distinct = distinct '
          'canonical op JSON',
  'assumptions': ['sync.Pool hands an object to one user at a time and returns either New() or an object that was Put before (the model '
@@ -42,6 +48,6 @@ PROP = {'gen_tables': ['Pools'],
  'level_text': 'history_independent: for every history and every behaviour of sync.Pool each observable result equals that of the pool-free run '
                '(JSON line = Enc.encodeEntry, console line = Console.consoleLine); encode_independent_of_garbage for every object satisfying '
                'PutInv; in_flight_undisturbed for any nested activity between EncodeEntry and the sink\'s return; seven leak_* witnesses show '
-               'each reset statement is needed; field_covered / source_matches_model / free_sites are decided over today\'s source.',
+               'each reset statement is needed; hook_reads_own_entry: a CheckedEntry stays out of the pool until its hook returned (leak_early_put); put_is_last_use over the source; field_covered / source_matches_model / free_sites are decided over today\'s source.',
  'level_note': 'sync.Pool exclusivity and the interleaving granularity are trusted; the schedule and the runtime pool are sampled, not proved.',
 }
